@@ -37,6 +37,8 @@ STDLIB_TRUSTED = {
     # name -> reason
     "time.time": "clock read",
     "uuid.uuid4": "random uuid",
+    "random.Random": "constructor (seeded from the OS)", "random.SystemRandom": "constructor",
+    "random.getrandbits": "random bits from the process-wide generator",
     "uuid.UUID": "constructor from library-computed parts",
     "itertools.count": "constructor",
     "itertools.chain": "constructor",
@@ -93,6 +95,8 @@ EXT_METHOD_TRUSTED = {
     ("threading.Thread", "start"), ("threading.Thread", "join"),
     ("contextvars.copy_context", "run"),
     ("weakref.WeakKeyDictionary", "__setitem__"),
+    ("weakref.WeakKeyDictionary", "get"), ("weakref.WeakKeyDictionary", "pop"),
+    ("random.Random", "getrandbits"), ("random.Random", "seed"), ("random.SystemRandom", "getrandbits"),
     ("re.compile", "findall"), ("re.compile", "finditer"), ("re.compile", "match"), ("re.compile", "search"),
     ("re.compile", "fullmatch"), ("re.compile", "split"), ("re.compile", "sub"),
 }
@@ -108,6 +112,7 @@ EXT_FOREIGN = {
 # external constructors whose result type is tracked (so that methods on the result
 # resolve to EXT_METHOD_TRUSTED entries); results of other external calls are untyped
 EXT_OBJECT_TYPES = {
+    "random.Random", "random.SystemRandom", "weakref.WeakKeyDictionary",
     "contextvars.ContextVar", "contextvars.copy_context", "threading.Lock", "threading.RLock",
     "threading.Thread", "queue.SimpleQueue", "queue.Queue", "queue.LifoQueue",
     "queue.PriorityQueue", "weakref.WeakKeyDictionary", "threading.local", "re.compile",
